@@ -285,10 +285,14 @@ def gen_module(
     if emit_and_infer_imports:
         imports: str = "{}{}".format(
             imports or "",
-            " ".join(
+            "\n".join(
                 map(
                     to_code,
-                    optimise_imports(chain(*map(infer_imports, functions_and_classes))),
+                    optimise_imports(
+                        chain.from_iterable(
+                            filter(None, map(infer_imports, functions_and_classes))
+                        )
+                    ),
                 )
             ),
         )
